@@ -15,6 +15,14 @@ impl GenerationPass for NodeDirectionPass {
     fn run(cfg: &mut Cfg) -> Result<(), Box<CfgError>> {
         let mut prev = None;
         for node in cfg.iter() {
+            // A call needs an instruction to go to just like a jump does: a
+            // label at the very end of the program (or with nothing but data
+            // behind it) is no function
+            if let Some(label) = node.calls_to() {
+                if !cfg.iter().any(|n| n.labels.contains(&label)) {
+                    return Err(Box::new(CfgError::LabelWithoutInstruction(label)));
+                }
+            }
             // If node jumps to another node, add it to the nexts of the current node and the prevs of the node it jumps to.
             if let Some(label) = node.jumps_to() {
                 let jump_to_node = cfg
